@@ -201,7 +201,9 @@ PROPERTIES = {
                    'descriptor:Auto.__delete__', 'descriptor:Auto.sync_before_pack',
                    'descriptor:AutoLength.calculate_length', 'packet:Packet.__init__',
                    # the naming scheme that links a described field to its hidden slot and tells the descriptor both names
-                   'field:Field._describe_yourself'],
+                   'field:Field._describe_yourself',
+                   # the hooks a class runs: the bound methods of the descriptors of its own fields, one per field, in table order
+                   'packet_builder:PacketClassBuilder.collect_sync_methods_from_field_descriptors'],
         lemmas=['C17.visible_depends_only_on_flag_and_hidden'],
         trusted_base=_COMMON_TRUST + ["python's descriptor protocol dispatches attribute get/set/delete of a described field to Auto.__get__/__set__/__delete__ (role:DESC.__set__)"],
         assumptions=['the computing function (Auto.func) is pure and does not read the hidden slot',
